@@ -488,3 +488,76 @@ Proof. exact fast_retx_nonvacuous. Qed.
 
 Print Assumptions c06_backoff_cap_nonvacuous.
 Print Assumptions c06_fast_retx_nonvacuous.
+
+(* ---- session 6: the remaining trace predicates (Conn/C06_Step2.v, Conn/C06_Step2b.v) ---- *)
+From Utp Require Import Conn.C06_Step2 Conn.C06_Pred3 Conn.C06_Step2b.
+
+(* the phase IgnoringUntilRecoveryPoint rp ends with the poll that takes an acknowledgement reaching rp:
+   every trace of the model from vsock_new, no hypothesis on the configuration *)
+Theorem c06_rp_exit_ok_trace : forall CC (cci : cc_iface CC) cfg mk c (s0 : vsock CC) ops,
+  vsock_new cci mk c = Some s0 -> c06_rp_exit_ok cfg (ftrace cci s0 ops) = true.
+Proof. exact (@C06_Step2.c06_rp_exit_ok_trace). Qed.
+
+(* one poll: Established, Ignoring rp, a message reaching rp queued, retransmission timer not expired:
+   Pending with the transport writable leaves the phase (or the connection left Established) *)
+Theorem c06_poll_rp_exit : forall CC (cci : cc_iface CC) rp (s : vsock CC) sc s',
+  ti s -> v_state s = Established -> ign (v_recovery s) = Some rp ->
+  Exists (fun m => reaches_rp rp (m_hdr m) = true) (v_inbox s) ->
+  timer_expired (v_t_retransmit s) (v_env_now s) = false ->
+  poll cci (VSockRec.set_sends s sc) = (s', PollPending) ->
+  v_transport_pending s' = true \/ (v_state s' = Established -> ign (v_recovery s') = None).
+Proof. exact (@C06_Step2.poll_rp_exit). Qed.
+
+Theorem c06_rp_exit_nonvacuous :
+  exists w cfg ops,
+    vconfig_ok cfg = true /\ Forall op_msg_ok ops /\
+    existsb rp_exit_seen (wtrace w cfg ops) = true /\
+    c06_rp_exit_ok cfg (wtrace w cfg ops) = true.
+Proof. exact rp_exit_nonvacuous. Qed.
+
+Print Assumptions c06_rp_exit_ok_trace.
+Print Assumptions c06_poll_rp_exit.
+Print Assumptions c06_rp_exit_nonvacuous.
+
+(* ---- c06_stable_plen_ok: guarded forms (Conn/C06_Pred3.v) ----
+   (a) within one poll (the map starts empty at every poll): every trace, unconditional *)
+Theorem c06_stable_plen_ok_p_trace : forall CC (cci : cc_iface CC) cfg mk c (s0 : vsock CC) ops,
+  vconfig_ok c = true -> vsock_new cci mk c = Some s0 ->
+  c06_stable_plen_ok_p cfg (ftrace cci s0 ops) = true.
+Proof. exact (@C06_Step2b.c06_stable_plen_ok_p_trace). Qed.
+
+(* (b) across polls, with a map that forgets the numbers the table no longer names: PARTIAL.
+   Proved GIVEN SMH (over one EMSGSIZE-free poll from an LB state the table after the poll is the table before it
+   with d entries dropped from the front, and what stays keeps its size and stays a non-probe unless it was a
+   probe).  SMH itself is NOT proved: it needs pointwise size/probe-preservation lemmas for sack_phase,
+   recovery_on_ack, calc_pipe, on_sent, strip_delivered, pop_expired_mtu_probe, enqueue/segment_loop and a poll_H
+   walk like poll_OUT_DM_strict_all (Conn/C06_StepLemmas2.v). *)
+Theorem c06_stable_plen_ok_g_partial : forall CC (cci : cc_iface CC),
+  SMH cci ->
+  forall cfg mk c (s0 : vsock CC) ops,
+    vconfig_ok c = true -> vsock_new cci mk c = Some s0 ->
+    c06_stable_plen_ok_g cfg (ftrace cci s0 ops) = true.
+Proof. exact (@C06_Step2b.c06_stable_plen_ok_g_partial_SM). Qed.
+
+Theorem c06_stable_plen_nonvacuous :
+  exists w cfg ops,
+    vconfig_ok cfg = true /\ Forall op_msg_ok ops /\
+    forallb (fun st => poll_noemsg None st && tol_ok (fs_pre st) && tol_ok (fs_post st)) (wtrace w cfg ops) = true /\
+    (6 <=? Z.of_nat (length (data_seqs (wtrace w cfg ops)))) = true /\
+    forallb (fun q => q =? 101) (data_seqs (wtrace w cfg ops)) = true /\
+    c06_stable_plen_ok_g cfg (wtrace w cfg ops) = true /\
+    c06_stable_plen_ok cfg (wtrace w cfg ops) = true.
+Proof. exact stable_plen_g_nonvacuous. Qed.
+
+Theorem c06_stable_plen_p_nonvacuous :
+  exists w cfg ops,
+    vconfig_ok cfg = true /\ Forall op_msg_ok ops /\
+    forallb (fun st => poll_noemsg None st && tol_ok (fs_post st)) (wtrace w cfg ops) = true /\
+    (6 <=? Z.of_nat (length (data_seqs (wtrace w cfg ops)))) = true /\
+    c06_stable_plen_ok_p cfg (wtrace w cfg ops) = true.
+Proof. exact stable_plen_p_nonvacuous. Qed.
+
+Print Assumptions c06_stable_plen_ok_p_trace.
+Print Assumptions c06_stable_plen_ok_g_partial.
+Print Assumptions c06_stable_plen_nonvacuous.
+Print Assumptions c06_stable_plen_p_nonvacuous.
